@@ -48,6 +48,21 @@ fn eval_idem(cfg: &Cfg, built: &SanitizerConfig, family: &str, input: &str, t: &
                 format!("s(x)={s1:?}, print(parse(s(x)))={p1:?}, s(s(x))={s2:?}"),
             ));
         }
+        // the same law through the string helper of the mode configurations
+        if cfg.main {
+            let rrf = if cfg.rrf { RemoveReplyFallback::Yes } else { RemoveReplyFallback::No };
+            let mode = to_ruma_mode(cfg.mode.unwrap());
+            let hs1 = sanitize_html(input, mode, rrf);
+            let hp1 = Html::parse(&hs1).to_string();
+            let hs2 = sanitize_html(&hs1, mode, rrf);
+            calls += 4;
+            if hs2 != hp1 {
+                v.push((
+                    format!("not-idempotent/entrypoint-sanitize_html/{}", diff_class(&hp1, &hs2)),
+                    format!("h(x)={hs1:?}, print(parse(h(x)))={hp1:?}, h(h(x))={hs2:?}"),
+                ));
+            }
+        }
         let fix = s2 == s1;
         if !fix {
             // the parser normalised the first output; the invariant must hold again from there
